@@ -1641,4 +1641,18 @@ example : mkFillComputeSeq ([exRevObj] ++ exSumObj :: []) = .error .lenaTypeErro
     ⟨rfl, rfl⟩ ⟨exRevObj, by simp, .lenaTypeError, rfl⟩
 example : ∃ st, mkSequence ([exRevObj] ++ exSumObj :: []) = .ok st := ⟨_, rfl⟩
 
+/-- the proved parts of sentence 1 under their `_partial` names (the full statement is `three_drivers_agree_full`,
+refuted by `three_drivers_agree_full_false`) -/
+theorem seq_eq_fill_partial (c : Chain σ α) (xs : List α) (hwf : PreWF c.pre) (hacc : AccNoStop c.acc)
+    (hsafe : PreSafe c.pre xs) : seqRun c xs = fillRun c xs := seq_eq_fill c xs hwf hacc hsafe
+
+theorem spec_drivers_agree_partial (pre post : List Spec) (k : AccKind) (flow : List Value) (bufsize : Option Nat)
+    (hb : bufsize ≠ some 0) (hscope : ∀ s ∈ pre, s.InScope)
+    (os : List Obj) (hos : Spec.toObjs (pre ++ .acc k :: post) = .ok os)
+    (c : Chain AccState Value) (hc : mkFillComputeSeq os = .ok c) (hsafe : PreSafe c.pre flow) :
+    driveSeq (pre ++ .acc k :: post) flow = .ran (fillRun c flow) ∧
+    driveFill (pre ++ .acc k :: post) flow = .ran (fillRun c flow) ∧
+    (driveSplit [pre ++ .acc k :: post] bufsize flow).map (fun s => s.map Prod.snd) = .ok (fillRun c flow) :=
+  spec_drivers_agree pre post k flow bufsize hb hscope os hos c hc hsafe
+
 end Lena.C05
